@@ -26,7 +26,12 @@
      * (module F) FRAME-LEVEL PARSING: read_frame_header = parse_header in every field, and header + macroblock loop of
        decode_frame_ (Model/Vp8Frame.v, tied to the REAL decode_frame_ by recording hooks) = the reference parse_modes / parse_tokens
        for every macroblock in raster order (F.parse_frame_refines).
-   NOT proved: the sub-block loop of predict_4x4 with its write-back, and the workspace / border
+     * (module X) FRAME-LEVEL RECONSTRUCTION: the reconstruction half of decode_frame_ (Model/Vp8Recon.v, tied to the real decode_frame_
+       by recording hooks: planes before and after the filter pass) -- per-macroblock prediction incl. the 16-sub-block loop and the
+       write-back, the loop-filter pass (run once after all macroblocks, raster order), the crop -- fed the reference's parse results
+       returns exactly the planes of Spec.VP8.decode_frame (X.decode_frame_recon_is_spec).
+   NOT proved: the last composition step (F.parse_frame_refines's per-macroblock relation implies X's frame_rel), i.e. one theorem
+   `decode_frame = Spec.VP8.decode`; (formerly:) the workspace / border
    bookkeeping = frame-addressed reconstruction and per-macroblock filter traversal: decided on every run by the
    whole-frame correspondence implementation = Spec.VP8.decode on generated key frames (harness c02), and on libwebp. *)
 From Coq Require Import ZArith List Lia.
@@ -37,6 +42,7 @@ From WebP Require Lib.Res Spec.BoolDec Model.ArithDec Model.Vp8Parse Proofs.C15_
 From WebP Require Model.Vp8Frame Proofs.VP8_frame_base Proofs.VP8_frame_mono Proofs.VP8_frame_header Proofs.VP8_frame_hdrthm Proofs.VP8_frame_residual
   Proofs.VP8_frame_loop Proofs.VP8_frame_main.
 From WebP Require Model.Vp8Predict Proofs.VP8_predict_base Proofs.VP8_predict_sub Proofs.VP8_predict_border Proofs.VP8_predict.
+From WebP Require Model.Vp8Recon Proofs.VP8_recon_base Proofs.VP8_recon_plane Proofs.VP8_recon_frame Proofs.VP8_recon_filter Proofs.VP8_recon_pass Proofs.VP8_recon_main Proofs.VP8_recon_example.
 Import ListNotations.
 Open Scope Z_scope.
 
@@ -617,3 +623,132 @@ Module F.
   Proof. exact VP8_frame_main.parse_frame_valid. Qed.
 
 End F.
+
+(* ---------------- frame-level reconstruction, loop filter and crop (Model/Vp8Recon.v) ---------------- *)
+Module X.
+  Import Lib.Res Lib.ZBits Lib.Arr Gen.Kernels Gen.Tables Spec.VP8Tables Spec.BoolDec Spec.VP8 Model.Vp8Predict Model.Vp8Recon Proofs.VP8_recon_base Proofs.VP8_recon_plane Proofs.VP8_recon_frame Proofs.VP8_recon_filter Proofs.VP8_recon_pass Proofs.VP8_recon_main Proofs.VP8_recon_example.
+
+  (* reconstruction of ONE macroblock (border construction, 16x16 prediction or the 16-sub-block loop of predict_4x4 with residue, chroma, write-back into the planes and the border arrays) = the reference recon_mb, re-establishing the border invariants for the next macroblock *)
+  Theorem recon_mb_refines :
+    forall (h : RHdr) (mbh : Z) (pl : planes) (mx my : Z) (mb : MacroBlock) (m : mbmode) (r : mbres) (blocks : list Z) (s : RState),
+           0 <= mx < rh_mbwidth h ->
+           0 <= my < mbh ->
+           planes_rel (rh_mbwidth h) mbh pl s ->
+           VP8_recon_mb.top_inv (pl_y pl) (rh_mbwidth h) mx my (rs_top_border s) ->
+           VP8_recon_mb.left_inv (pl_y pl) mx my (rs_left_border s) ->
+           VP8_recon_mb.mb_rel mb m ->
+           VP8_recon_mb.res_rel blocks r ->
+           let pl' := VP8.recon_mb (rh_mbwidth h) pl mx my m r in
+           exists s' : RState,
+             recon_mb h mx my mb blocks s = Ok s' /\
+             planes_rel (rh_mbwidth h) mbh pl' s' /\
+             VP8_recon_mb.top_inv (pl_y pl') (rh_mbwidth h) (mx + 1) my (rs_top_border s') /\
+             VP8_recon_mb.left_inv (pl_y pl') (mx + 1) my (rs_left_border s') /\ rs_macroblocks s' = rs_macroblocks s ++ [mb].
+  Proof. exact VP8_recon_frame.recon_mb_refines. Qed.
+
+  (* the reconstruction loop over the frame = the reference reconstruct (induction over macroblocks in raster order) *)
+  Theorem reconstruct_refines :
+    forall (h : RHdr) (hs : header) (inp : list (MacroBlock * list Z)) (mss : list (list mbmode)) (rss : list (list mbres)),
+           dims_rel h hs ->
+           frame_rel (mb_w hs) inp mss rss ->
+           Z.of_nat (length mss) = mb_h hs ->
+           exists s : RState,
+             reconstruct h inp = Ok s /\ planes_rel (mb_w hs) (mb_h hs) (VP8.reconstruct hs mss rss) s /\ rs_macroblocks s = map fst inp.
+  Proof. exact VP8_recon_frame.reconstruct_refines. Qed.
+
+  (* the loop filter of ONE macroblock (filter parameters, left / inner vertical / top / inner horizontal edges of luma and both chroma planes, frame-edge exclusions, inner-edge condition, simple or normal filter) = the reference filter_mb *)
+  Theorem loop_filter_mb_refines :
+    forall (h : RHdr) (hs : header) (pl : planes) (mx my : Z) (mb : MacroBlock) (m : mbmode) (r : mbres) (b : planes3),
+           filt_rel h hs ->
+           lf_valid hs ->
+           h_level hs <> 0 ->
+           (Vp8Parse.mb_luma_mode mb =? vp8_B_PRED) = m_i4 m ->
+           seg_rel mb m r ->
+           0 <= mx < rh_mbwidth h ->
+           0 <= my < rh_mbheight h ->
+           frel3 (rh_mbwidth h) (rh_mbheight h) pl b ->
+           exists b' : planes3, loop_filter h mx my mb b = Ok b' /\ frel3 (rh_mbwidth h) (rh_mbheight h) (filter_mb hs pl mx my m r) b'.
+  Proof. exact VP8_recon_filter.loop_filter_mb_refines. Qed.
+
+  (* the filter pass over the frame = the reference loop_filter *)
+  Theorem filter_frame_refines :
+    forall (h : RHdr) (hs : header) (inp : list (MacroBlock * list Z)) (mss : list (list mbmode)) (rss : list (list mbres))
+             (pl : planes) (b : planes3),
+           filt_rel h hs ->
+           lf_valid hs ->
+           frame_rel (rh_mbwidth h) inp mss rss ->
+           Z.of_nat (length mss) = rh_mbheight h ->
+           0 < rh_mbwidth h ->
+           frel3 (rh_mbwidth h) (rh_mbheight h) pl b ->
+           exists b' : planes3,
+             filter_frame h (map fst inp) b = Ok b' /\ frel3 (rh_mbwidth h) (rh_mbheight h) (VP8.loop_filter hs mss rss pl) b'.
+  Proof. exact VP8_recon_pass.filter_frame_refines. Qed.
+
+  (* reconstruction + filter pass + crop = the reference planes, given related parse results *)
+  Theorem decode_frame_recon_refines :
+    forall (h : RHdr) (hs : header) (inp : list (MacroBlock * list Z)) (mss : list (list mbmode)) (rss : list (list mbres)),
+           dims_rel h hs ->
+           h_width hs <= 16383 ->
+           h_height hs <= 16383 ->
+           filt_rel h hs ->
+           lf_valid hs ->
+           frame_rel (mb_w hs) inp mss rss ->
+           Z.of_nat (length mss) = mb_h hs ->
+           let rec := VP8.reconstruct hs mss rss in
+           let pl := VP8.loop_filter hs mss rss rec in
+           let w := h_width hs in
+           let hh := h_height hs in
+           let cw := Z.shiftr (w + 1) 1 in
+           let ch := Z.shiftr (hh + 1) 1 in
+           decode_frame_recon h inp =
+           Ok
+             (to_list (p_a (pl_y rec)), to_list (p_a (pl_u rec)), to_list (p_a (pl_v rec)),
+              (crop (pl_y pl) w hh, crop (pl_u pl) cw ch, crop (pl_v pl) cw ch)).
+  Proof. exact VP8_recon_main.decode_frame_recon_refines. Qed.
+
+  (* ... stated against Spec.VP8.decode_frame: fed the parse results of the reference, the reconstruction half of decode_frame_ (Model/Vp8Recon.v, tied to the REAL decode_frame_ by recording hooks) returns exactly the reference planes *)
+  Theorem decode_frame_recon_is_spec :
+    forall (data : list Z) (hs : header) (s : bstate) (parts : list (list Z)) (mss : list (list mbmode)) (s' : bstate)
+             (rss : list (list mbres)) (parts' : list bstate) (f : frame) (h : RHdr) (inp : list (MacroBlock * list Z)),
+           parse_header data = Some (hs, s, parts) ->
+           parse_modes hs s = (mss, s') ->
+           parse_tokens hs mss (map bd_init parts) = (rss, parts') ->
+           decode_frame data = Some f ->
+           dims_rel h hs ->
+           h_width hs <= 16383 ->
+           h_height hs <= 16383 ->
+           filt_rel h hs ->
+           lf_valid hs ->
+           frame_rel (mb_w hs) inp mss rss ->
+           Z.of_nat (length mss) = mb_h hs ->
+           decode_frame_planes h inp = Ok (fr_y f, fr_u f, fr_v f) /\ fr_w f = rh_width h /\ fr_h f = rh_height h.
+  Proof. exact VP8_recon_main.decode_frame_recon_is_spec. Qed.
+
+  (* closed form: two computable side conditions (well-formed parse results; filter levels whose segment base stays in 0..63 before the deltas -- the documented lf_ambiguous exclusion) *)
+  Theorem recon_of_spec_parse :
+    forall (data : list Z) (hs : header) (s : bstate) (parts : list (list Z)) (mss : list (list mbmode)) (s' : bstate)
+             (rss : list (list mbres)) (parts' : list bstate) (f : frame),
+           parse_header data = Some (hs, s, parts) ->
+           parse_modes hs s = (mss, s') ->
+           parse_tokens hs mss (map bd_init parts) = (rss, parts') ->
+           decode_frame data = Some f ->
+           wf_frame_b (mb_w hs) mss rss = true ->
+           lf_valid_b hs = true -> decode_frame_planes (hdr_of_spec hs) (frame_of_spec mss rss) = Ok (fr_y f, fr_u f, fr_v f).
+  Proof. exact VP8_recon_example.recon_of_spec_parse. Qed.
+
+  (* the lf_valid condition is necessary: machine-checked witness of the documented clamp difference (crate level 53, libwebp level 60) *)
+  Theorem filter_level_clamp_refuted :
+    lf_valid_b amb_hdr = false /\
+           filter_parameters (hdr_of_spec amb_hdr)
+             {|
+               Vp8Parse.mb_bpred := repeat 0 16;
+               Vp8Parse.mb_complexity := repeat 0 9;
+               Vp8Parse.mb_luma_mode := 0;
+               Vp8Parse.mb_chroma_mode := 0;
+               Vp8Parse.mb_segmentid := 0;
+               Vp8Parse.mb_coeffs_skipped := false;
+               Vp8Parse.mb_non_zero_coeffs := false
+             |} = Ok (53, 53, 2) /\ filter_strength amb_hdr 0 false = {| f_limit := 2 * 60 + 60; f_ilevel := 60; f_hev := 2 |}.
+  Proof. exact VP8_recon_example.filter_level_clamp_refuted. Qed.
+
+End X.
